@@ -131,6 +131,44 @@ func perturbations(et int32, bits []int) []pert {
 		{"whole-reply-truncated", func(r *simkdc.Reply, et int32, w *cworld.World) { r.Raw = []byte{0x6b, 0x03, 0x30, 0x01, 0x00} }, "reject", "reject"},
 		{"empty-reply", func(r *simkdc.Reply, et int32, w *cworld.World) { r.Raw = []byte{} }, "reject", "reject"},
 	}
+	// a reply whose enc-part decrypts (right key, right usage, intact integrity tag) but whose plaintext is not a
+	// complete EncKDCRepPart: cut at an offset (all offsets when the dense bit set is asked for), or carrying another
+	// application tag
+	cuts := []int{0, 1, 2, 5, 17, 40, 41, 64, -3, -1}
+	if len(bits) > 16 {
+		cuts = cuts[:0]
+		for k := 0; k < 300; k++ {
+			cuts = append(cuts, k)
+		}
+	}
+	// des3 pads the plaintext to the block size with zero bytes: a cut of a few bytes inside the final string is made
+	// up by the padding and yields a complete EncKDCRepPart with another sname, which is not this family's subject
+	cutWant := "reject"
+	if et == rcrypto.DES3 {
+		cutWant = "nj"
+	}
+	for _, k := range cuts {
+		k := k
+		ps = append(ps, pert{fmt.Sprintf("enc-part-plaintext-cut-%d", k), func(r *simkdc.Reply, et int32, w *cworld.World) {
+			plain := r.Enc.Encode()
+			j := k
+			if j < 0 {
+				j = len(plain) + j
+			}
+			r.RawEnc = append([]byte{}, plain[:j%len(plain)]...)
+		}, cutWant, cutWant})
+	}
+	for _, tag := range []int{27, 30, 3} {
+		tag := tag
+		ps = append(ps, pert{fmt.Sprintf("enc-part-application-tag-%d", tag), func(r *simkdc.Reply, et int32, w *cworld.World) { r.Enc.App = tag }, "reject", "reject"})
+	}
+	ps = append(ps, pert{"enc-part-plaintext-garbage", func(r *simkdc.Reply, et int32, w *cworld.World) {
+		plain := r.Enc.Encode()
+		for i := len(plain) / 2; i < len(plain); i++ {
+			plain[i] = 0xff
+		}
+		r.RawEnc = plain
+	}, "reject", "reject"})
 	for _, i := range bits {
 		i := i
 		ps = append(ps, pert{fmt.Sprintf("cipher-bit-%d", i), func(r *simkdc.Reply, et int32, w *cworld.World) {
@@ -319,6 +357,9 @@ var digits = regexp.MustCompile(`-?\d+$`)
 func classOf(name string) string {
 	if strings.HasPrefix(name, "cipher-bit-") {
 		return "cipher-bit"
+	}
+	if strings.HasPrefix(name, "enc-part-plaintext-cut-") {
+		return "enc-part-plaintext-cut"
 	}
 	return name
 }
